@@ -94,7 +94,7 @@ def exclusive(e1, e2):
 def subterms(t):
     yield t
     if isinstance(t, tuple):
-        for x in t[1:]:
+        for x in (t[1:] if t and isinstance(t[0], str) else t):
             if isinstance(x, tuple):
                 yield from subterms(x)
             elif isinstance(x, list):
@@ -600,6 +600,7 @@ class Walker:
         if recv == ['registers']:
             if name in REG_GET:
                 idx = const(REG_GET[name]) if REG_GET[name] is not None else (a[0] if a else ('missing',))
+                self.emit('RegRead', node, idx=idx)
                 if idx == const(15):
                     return ('pc',)
                 return ('reg', idx)
